@@ -955,13 +955,22 @@ func (db *DB) initDatabaseFile() error {
 	// Build per-page checksum map for existing pages. The database could be
 	// short compared to the page count in the header so just checksum what we
 	// can. The database may recover in applyLTX() so we'll do validation then.
-	db.chksums.pages = make([]ltx.Checksum, db.PageN())
-	db.chksums.blocks = nil
-	if db.PageN() > 0 { // header page count can be zero on a non-empty file
-		db.chksums.blocks = make([]ltx.Checksum, pageChksumBlock(db.PageN()))
+	// Only pages that exist in the file can have a checksum. A header page
+	// count far beyond the file size must not size the checksum slice.
+	pageN := db.PageN()
+	if fi, err := f.Stat(); err != nil {
+		return err
+	} else if n := (fi.Size() + int64(db.pageSize) - 1) / int64(db.pageSize); n < int64(pageN) {
+		pageN = uint32(n)
 	}
 
-	lastGoodPage, err := ltx.ChecksumPages(db.DatabasePath(), db.pageSize, db.PageN(), 0, db.chksums.pages)
+	db.chksums.pages = make([]ltx.Checksum, pageN)
+	db.chksums.blocks = nil
+	if pageN > 0 { // header page count can be zero on a non-empty file
+		db.chksums.blocks = make([]ltx.Checksum, pageChksumBlock(pageN))
+	}
+
+	lastGoodPage, err := ltx.ChecksumPages(db.DatabasePath(), db.pageSize, pageN, 0, db.chksums.pages)
 
 	// lastGoodPage tells us how far we got before the first error. Most likely
 	// is that we got an EOF because the db was short, in which case no
